@@ -21,7 +21,7 @@ PROP = dict(
               "r in {0,stride-1}; real and complex; density sum (Psd) and shape (Power). Overload forms for winlen 2..66 and "
               "{200,255,256,257,1000,1024}. Tone sweep nfft {8,16,32,64}: every frequency q/(4 nfft) in (0,0.5) real / (-0.5,0.5) complex, "
               "4x4 segment grid, 10 windows, amplitudes {1e-3,1,1e3} inside each case. mscohere: same segment grids (full for nfft<=16), 4 windows, y in "
-              "{-3x,1e-3x,x,1e3x,filtered,independent}, 4 overload forms",
+              "{-3x,1e-3x,x,1e3x,1e-15x,-1e-13x,1e-10x,1e10x,1e13x,-1e15x, the pair (1e-8x,1e8x), filtered,independent}, 4 overload forms",
         thorough="as quick with every window length 2..nfft also for nfft 64 (every overlap for winlen<=32), signal lengths j in {0,1,2,5}, all 10 windows at every nfft, long signals (N=100000 at nfft 1024/4096, stride-1 "
                  "cases N=20000/50000), overload forms winlen 2..130, tone sweep also nfft 256, mscohere full segment grid for nfft<=32"),
     deadline=dict(quick=150, thorough=1500),
